@@ -301,6 +301,8 @@ func uriSamples(t *rapid.T, label string) []fmtSample {
 		{scheme + "://exa" + rapid.SampledFrom([]string{"<", ">", "\"", " ", "{", "|"}).Draw(t, label+"BadHost") + "mple.com" + path, false},
 		{ok + "#a#b", false},
 		{scheme + "://a@b@" + host + path, false},
+		// user info may hold percent-encoded characters - an encoded '@' among them
+		{scheme + "://" + rapid.SampledFrom([]string{"john%40example.com@", "u:p%40ss@", "a%2Fb@", "user@"}).Draw(t, label+"UserInfo") + host + port + path, true},
 	}
 }
 
@@ -318,7 +320,9 @@ func uuidSamples(t *rapid.T, label string) []fmtSample {
 	if bad[pos] == '-' {
 		bad[pos] = 'a'
 	} else {
-		bad[pos] = rapid.SampledFrom([]byte{'g', 'G', 'z', '-', ' '}).Draw(t, label+"bad")
+		// letters beyond f, punctuation next to the digits in the ASCII table, control characters
+		// (0x10-0x19 differ from '0'-'9' in one bit only), DEL, a byte of a non-ASCII character
+		bad[pos] = rapid.SampledFrom([]byte{'g', 'G', 'z', '-', ' ', '/', ':', '@', '`', 0x10, 0x11, 0x15, 0x19, 0x00, 0x1f, 0x7f, 0xc3}).Draw(t, label+"bad")
 	}
 	return []fmtSample{
 		{ok, true},
